@@ -13,9 +13,9 @@ import signal
 from .common import C, Nat, Opt, Raw, coq
 
 ID = "C03"
-COQ_FILES = ["C03/Model.v", "C03/Spec.v", "C03/Check.v", "C03/Proofs.v", "C03/Property.v"]
+COQ_FILES = ["C03/Model.v", "C03/ModelFloat.v", "C03/Spec.v", "C03/Check.v", "C03/Proofs.v", "C03/Property.v"]
 COQ_PRELUDE = ("From Coq Require Import ZArith List Bool Floats.\nImport ListNotations.\n"
-               "From KD Require Import C03.Model C03.Spec C03.Check.\nOpen Scope Z_scope.\n")
+               "From KD Require Import C03.Model C03.ModelFloat C03.Spec C03.Check.\nOpen Scope Z_scope.\n")
 COQ_CHECK = "check"
 COQ_CASE_TYPE = "case_t"
 SHARD = 200
@@ -24,19 +24,26 @@ TRUSTED = [
     "hand-written model coq/C03/Model.v of the ten wrapper constructors and get_class_counts; tied to KD_REPO by "
     "this run's correspondence evaluation",
     "percent -> index: binary64 product then int()/np.ceil, evaluated in Coq with PrimFloat (bit-exact under "
-    "vm_compute); theorems are stated over the resulting cut indices; 0 <= cut <= n and monotonicity of the cut are "
-    "checked on every case, not proved",
+    "vm_compute, model instance float_ops); the theorems are stated over abstract percent operations with the contract "
+    "Proofs.pct_contract (0. and 1. admissible and extremal, cut 0. = 0, cut 1. = n, 0 <= cut p <= n; proved for exact "
+    "fractions, rat_ops); that binary64 meets these clauses (and p <= q -> cut p <= cut q) is evaluated on every "
+    "generated case (Check.float_contract_ok, code 3), not proved",
+    "RepeatWrapper: int(np.ceil(min_size / len)) is modelled as the integer ceiling (exact below 2**53)",
     "generator contract: rng.shuffle / rng.permutation return a permutation of their argument (the recorded outputs "
     "are fed to the model; theorems quantify over all permutations)",
     "numpy/torch primitives used by the constructors: arange, isin, tile, nonzero, unique(return_counts), boolean "
     "mask indexing, concat; float32 division max/count in OversamplingWrapper and float32 percent*count in "
     "ClasswiseSubsetWrapper are exact for the sizes generated (counts < 2**24, dyadic percents)",
-    "harness/c03.py: dataset with x = sample id, spy around numpy.random.default_rng, 5 s alarm for non-terminating "
-    "constructors",
+    "selection_is_function_of_args_and_draws is true of the model by construction; that the real constructors read "
+    "nothing but labels, arguments and their own seeded generator is checked per case (second construction under "
+    "another global RNG state, global RNG state tripwire, three label providers)",
+    "harness/c03.py: dataset with x = sample id, spy around numpy.random.default_rng, alarm (2 s, 0.5 s after two "
+    "confirmed hangs) that classifies a non-returning constructor as RUNAWAY",
 ]
 ASSUMPTIONS = [
     "labels in [0, C) for the class-based wrappers (a few cases with -1 / out-of-range labels are run for "
-    "model-vs-code agreement only)",
+    "model-vs-code agreement only; IntraClassShuffleWrapper with a label -1 is not generated: Python's negative "
+    "indexing makes it reuse the last class's permutation, outside the property and not modelled)",
     "start_index >= 0, num_shots >= 0; non-empty dataset for OversamplingWrapper",
     "seeded wrappers are constructed with an explicit seed (seed=None draws from the global generator by design)",
     "ClasswiseSubsetWrapper percents are dyadic (k/8): the code multiplies in float32",
@@ -137,6 +144,15 @@ def _alarm(signum, frame):
     raise _Runaway()
 
 
+# a construction on <= 80 samples takes about a millisecond; the first hangs are given 2 s, once two constructors
+# have been seen not to return the remaining ones get 0.5 s (the run is failing anyway; keeps it short)
+_RUNAWAYS = [0]
+
+
+def _alarm_seconds():
+    return 2.0 if _RUNAWAYS[0] < 2 else 0.5
+
+
 def _construct(case, ds):
     K = _classes()
     w = case["w"]
@@ -180,12 +196,13 @@ def _select(case, trace=None):
     if trace is not None:
         np.random.default_rng = lambda *a, **kw: K["Spy"](real_default_rng(*a, **kw), trace)
     old = signal.signal(signal.SIGALRM, _alarm)
-    signal.setitimer(signal.ITIMER_REAL, 5.0)
+    signal.setitimer(signal.ITIMER_REAL, _alarm_seconds())
     try:
         w = _construct(case, ds)
         out = [int(w.getitem_x(i)) for i in range(len(w))]
         return out, None
     except _Runaway:
+        _RUNAWAYS[0] += 1
         return None, "RUNAWAY"
     except EXPECTED_ERRORS as e:
         return None, type(e).__name__
@@ -246,7 +263,7 @@ def oracle(case, obs):
     w, cl, n = case["w"], case["classes"], len(case["classes"])
     out = obs["out"]
     if obs["err"] == "RUNAWAY":
-        return f"{w}: construction does not terminate (no result after 5 s)"
+        return f"{w}: construction does not terminate (alarm fired, the constructor did not return)"
     if out is not None:
         if obs.get("again") != out:
             return f"{w}: same arguments, different global generator state -> different selection {out} vs {obs.get('again')}"
@@ -494,7 +511,9 @@ def gen_case(rng, big=False, kind=None):
     w = kind or rng.choice(KINDS)
     case = {"w": w, "classes": cl, "C": c, "prov": rng.choice(["list", "list", "torch", "none"])}
     if rng.random() < 0.03 and n > 0 and w in ("oversample", "sort", "intra", "fewshot", "cw_range", "cw_percent"):
-        cl[rng.randrange(n)] = rng.choice([-1, c])    # outside the property's domain: model-vs-code only
+        # outside the property's domain: model-vs-code only (intra: a label -1 indexes the LAST class's permutation
+        # through Python's negative indexing, which the model does not mirror -> only the too-large label there)
+        cl[rng.randrange(n)] = rng.choice([-1, c]) if w != "intra" else c
     if w == "class_filter":
         case["valid"] = rng.random() < 0.5
         case["cls"] = [rng.randrange(c + 1) for _ in range(rng.choice([0, 1, 1, 2, 3]))]
